@@ -76,9 +76,12 @@ def main():
     props = [x for x in a.props.split(',') if x] or ALL
     names = a.ids or sorted(n for n in os.listdir(BENIGN) if os.path.isdir(os.path.join(BENIGN, n)))
     rp = os.path.join(BENIGN, 'RESULTS.json')
-    results = json.load(open(rp)) if os.path.exists(rp) else {}
+    import fcntl
+    lock = open(os.path.join(BENIGN, '.results.lock'), 'w')
     with concurrent.futures.ThreadPoolExecutor(a.jobs) as ex:
         for r in ex.map(lambda n: evaluate(n, props), names):
+            fcntl.flock(lock, fcntl.LOCK_EX)
+            results = json.load(open(rp)) if os.path.exists(rp) else {}
             old = results.get(r['name'], {})
             for p, v in old.get('checks', {}).items():
                 r.setdefault('checks', {}).setdefault(p, v)
@@ -86,8 +89,10 @@ def main():
             loud = {p: v['kind'] for p, v in r.get('checks', {}).items() if v['kind'] != 'quiet'}
             print('%-6s %-70s %s' % (r['name'], (r.get('title') or '')[:70], r.get('error') or loud or 'all quiet'))
             sys.stdout.flush()
-            with open(rp, 'w') as f:
+            with open(rp + '.tmp', 'w') as f:
                 json.dump(results, f, indent=1)
+            os.replace(rp + '.tmp', rp)
+            fcntl.flock(lock, fcntl.LOCK_UN)
 
 
 if __name__ == '__main__':
